@@ -630,7 +630,7 @@ fn main() {
     ctx.sample(json!({"law": "L7 chain T->Option<T>->U", "from": "i64", "to": "f32", "value": "9223372036854775807", "model": "9.223372e18f32"}));
     ctx.sample(json!({"law": "L8 sort_cmp_rev", "type": "Option<f64>", "value": "(None, Some(1.0))", "model": "Greater (nulls last in both directions)"}));
     let meta = Meta {
-        rule: "finite lattice (type, value): types u8,u64,i64,i32,f32,f64,usize,isize,bool, their Option forms, String/&str, DateTime<s|ms|us|ns>, TimeDelta, Time; 12-30 values per type (0, +-1, 2, 255, 256, 2^31-1, 2^31, 2^63-1, MIN, MAX, +-0.5, 1e10, +-inf, subnormal, NaN, -0.0 ...); actions: every Cast instance of the numeric lattice (8x8 pairs, enumerated by macro so a removed impl is a build error) with the Option forms on either side and depth-2 chains through Option, casts to / from bool, String and the time types; laws L1-L8 of DESIGN C15 incl. the order axioms on all pairs and triples. Exhaustive over this lattice. Non-trivial = distinct (law, source type, target type, value) obligations. Also (DESIGN 5.15, 5.16) L9: inner_cast / into_cast keep the value and keep a null a null (ten Self types x eight value types); L10: the accessor family of the Number trait (f64, f32, i32, i64, usize, to, fromas, min_, max_) against `as`. Round 8 (DESIGN 5.17): the float value lists hold NAN and -NAN (the run-time NaN of x86-64), twice each, for the predicate, cast and comparator laws.".into(),
+        rule: "finite lattice (type, value): types u8,u64,i64,i32,f32,f64,usize,isize,bool, their Option forms, String/&str, DateTime<s|ms|us|ns>, TimeDelta, Time; 12-30 values per type (0, +-1, 2, 255, 256, 2^31-1, 2^31, 2^63-1, MIN, MAX, +-0.5, 1e10, +-inf, subnormal, NaN, -0.0 ...); actions: every Cast instance of the numeric lattice (8x8 pairs, enumerated by macro so a removed impl is a build error) with the Option forms on either side and depth-2 chains through Option, casts to / from bool, String and the time types; laws L1-L8 of DESIGN C15 incl. the order axioms on all pairs and triples. Exhaustive over this lattice. Non-trivial = distinct (law, source type, target type, value) obligations. Also (DESIGN 5.15, 5.16) L9: inner_cast / into_cast keep the value and keep a null a null (ten Self types x eight value types); L10: the accessor family of the Number trait (f64, f32, i32, i64, usize, to, fromas, min_, max_) against `as`. Round 8 (DESIGN 5.17): the float value lists hold NAN and -NAN (the run-time NaN of x86-64), twice each, for the predicate, cast and comparator laws. Round 9 (DESIGN 5.18): L11 - equality is the identity of the value (for TimeDelta: of its month count and its duration), on a value list with sub-microsecond, month-bearing and longer-than-292-year durations, which also feed the comparator laws L8.".into(),
         bounds: json!({"numeric_types": ["u8","u64","i64","i32","f32","f64","usize","isize"], "chain_depth": 2}),
         assumptions: vec!["documented panics are not driven: none() on integer / bool types, None -> bool, x -> bool for x not in {0,1}, string parse failures, bool <-> time".into(), "canonical nulls only (DESIGN 5.4)".into()],
         exhaustive: true,
